@@ -409,7 +409,8 @@ func (v *Verdict) finish(runs []*Run, keep *bool) int {
 	}
 	minEvals := plan.MinEvals
 	if tier == "thorough" {
-		minEvals = plan.MinEvalsThorough
+		// thorough case counts are bounded multiples (>= 3x) of the quick counts (worker: thoroughCap)
+		minEvals = 2 * plan.MinEvals
 	}
 	if v.Evals < int64(minEvals) {
 		v.Inconcl = append(v.Inconcl, fmt.Sprintf("only %d evaluations (< minimum %d)", v.Evals, minEvals))
